@@ -448,9 +448,6 @@ class ThreadPool(object):
                 # Queue is now empty
                 pass
 
-            # Wait for the tasks currently executed
-            self.join()
-
     def join(self, timeout=None):
         """
         Waits for all the tasks to be executed
@@ -458,8 +455,8 @@ class ThreadPool(object):
         :param timeout: Maximum time to wait (in seconds)
         :return: True if the queue has been emptied, else False
         """
-        if self._queue.empty():
-            # Nothing to wait for...
+        if not self._queue.unfinished_tasks:
+            # Nothing to wait for: no queued task and no task being executed
             return True
         elif timeout is None:
             # Use the original join
